@@ -108,6 +108,22 @@ func scenarios() []scenario {
 				return err
 			}})
 	}
+	// a collection whose member names differ but sanitize to the same file name, the file being installed already:
+	// the second member is a duplicate and the whole install must fail leaving the installed font alone
+	ss = append(ss, scenario{Name: "font.InstallTrueTypeCollection/n=2/clash/pre=true", Dir: "fonts", Durable: true, BadAt: 2,
+		Setup: func(sb *fsx.Sandbox) {
+			fontsDir(sb)
+			sb.Put("src/c.ttc", fontgen.Collection(fontgen.Renamed(roboto, "Roboto:Regular"), fontgen.Renamed(roboto, "Roboto?Regular")), 0644)
+			p := sb.Put("pre/f.ttf", fontgen.Renamed(roboto, "Roboto_Regular"), 0644)
+			if _, err := font.InstallTrueTypeFont(sb.P("fonts"), p); err != nil {
+				panic(err)
+			}
+			os.RemoveAll(sb.P("pre"))
+		},
+		Run: func(sb *fsx.Sandbox) error {
+			_, err := font.InstallTrueTypeCollection(sb.P("fonts"), sb.P("src/c.ttc"))
+			return err
+		}})
 	// api batches: inputs, pre-existing, bad member
 	for _, c := range []struct {
 		in    []int
@@ -319,7 +335,7 @@ func judge(sc *scenario, targets []string, r *fsx.Result, rec *runRec) {
 		return
 	}
 	// not restored. Acceptable only if a rollback step itself failed and the error says where the backup is kept.
-	rollbackStepFailed := rec.K2 > 0 || sc.BadAt > 0
+	rollbackStepFailed := rec.K2 > 0 || (sc.BadAt > 0 && rec.K > 0) // without an injected fault no rollback step has a reason to fail
 	if rollbackStepFailed {
 		mentions := false
 		fullErr := ""
